@@ -220,7 +220,8 @@ Record joindecl := {
   j_inter : option str;
   j_joincol : option str;
   j_othercol : option str;
-  j_create : bool                   (* createRelatedTable *)
+  j_create : bool;                  (* createRelatedTable *)
+  j_other_creates : list str        (* intermediate tables of the OTHER class's RelatedJoins with createRelatedTable *)
 }.
 
 Record decl := {
@@ -288,28 +289,39 @@ Definition sqlrepr_str (cv : conv) (s : str) : bool * str :=
   | ConvPostgres => let b := flat_map esc_full s in (has_bs b, c_q :: b ++ [c_q])
   end.
 
-(* the converter SOEnumCol uses for the value list, per dialect of the DDL *)
+(* the converter SOEnumCol uses for the value list: the one of the dialect the DDL
+   is for (SOEnumCol._checkType(db) / _mysqlType / _firebirdType) *)
 Definition enum_conv (d : dialect) : conv :=
   match d with
   | Mysql => ConvMysql
-  | Firebird => ConvAnsi
-  | _ => ConvPostgres            (* sqlite, sybase, mssql reuse _postgresType *)
+  | Postgres => ConvPostgres
+  | _ => ConvAnsi
   end.
 
-(* tokens the dialect's own lexer sees for a rendered value: E'..' is one
-   token only for PostgreSQL; elsewhere it is the word E followed by a string *)
+(* the token for a rendered value: always one literal (E'..' only arises from the
+   PostgreSQL converter, and PostgreSQL's lexer reads it as one token) *)
 Definition lit_toks (d : dialect) (v : option str) : list tok :=
   match v with
   | None => [kw "NULL"]
   | Some s =>
       let '(e, body) := sqlrepr_str (enum_conv d) s in
-      if e then
-        match d with
-        | Postgres => [Lit (69 :: body)]
-        | _ => [W [69]; Lit body]
-        end
-      else [Lit body]
+      if e then [Lit (69 :: body)] else [Lit body]
   end.
+
+(* reading an ANSI string literal back: strip the quotes, undouble the quotes inside *)
+Fixpoint unq_ansi (l : str) : option str :=
+  match l with
+  | [] => None
+  | c :: r =>
+      if c =? c_q then
+        match r with
+        | [] => Some []
+        | c2 :: r2 => if c2 =? c_q then option_map (cons c_q) (unq_ansi r2) else None
+        end
+      else option_map (cons c) (unq_ansi r)
+  end.
+Definition unquote_ansi (l : str) : option str :=
+  match l with c :: r => if c =? c_q then unq_ansi r else None | [] => None end.
 
 Definition e_prefixed (d : dialect) (v : option str) : bool :=
   match v with None => false | Some s => fst (sqlrepr_str (enum_conv d) s) end.
@@ -647,13 +659,21 @@ Definition join_col (dc : decl) (j : joindecl) : str :=
 Definition other_col (dc : decl) (j : joindecl) : str :=
   match j_othercol j with Some c => c | None => table_reference (d_style dc) (j_other_table j) end.
 
-(* main._getJoinsToCreate *)
+(* main._getJoinsToCreate / _otherSideCreates: of two classes that declare the same
+   intermediate table the one whose name sorts first owns it; a join declared on one
+   side only is owned by that side *)
 Definition creates_link (dc : decl) (j : joindecl) : bool :=
   match j_kind j with
   | JMultiple => false
-  | JRelated => j_create j && negb (str_gtb (d_class dc) (j_other_class j))
+  | JRelated => j_create j
+                && negb (str_gtb (d_class dc) (j_other_class j)
+                         && mem_str (inter_table dc j) (j_other_creates j))
   end.
 Definition joins_to_create (dc : decl) : list joindecl := filter (creates_link dc) (d_joins dc).
+(* what j_other_creates must hold when the other class is b *)
+Definition other_creates (b : decl) : list str :=
+  map (inter_table b)
+      (filter (fun j => match j_kind j with JRelated => j_create j | JMultiple => false end) (d_joins b)).
 
 Definition join_table_stmt (d : dialect) (dc : decl) (j : joindecl) : list tok :=
   kw "CREATE" :: kw "TABLE" :: W (inter_table dc j) ::
@@ -1029,18 +1049,14 @@ Definition fk_cascades_none (dc : decl) : bool :=
 
 (* ================================================================== engine behaviour on sqlite (definitions) *)
 (* sqlite's grammar refuses a type name that continues after its parenthesised
-   length (INT(5) UNSIGNED), and a word directly followed by a string literal
-   (E'..'), which is what the PostgreSQL converter produces for enum values
-   containing a backslash or a control character *)
+   length (INT(5) UNSIGNED) *)
 Definition sqlite_type_ok (k : kind) : bool :=
   match k with
   | KInt _ (Some z) u zf => negb ((1 <=? z)%Z && (u || zf))
   | _ => true
   end.
-Definition enum_escape_free (d : dialect) (k : kind) : bool :=
-  match k with KEnum vs => negb (existsb (e_prefixed d) vs) | _ => true end.
 Definition sqlite_accepts (dc : decl) : bool :=
-  forallb (fun c => sqlite_type_ok (c_kind c) && enum_escape_free Sqlite (c_kind c)) (d_cols dc).
+  forallb (fun c => sqlite_type_ok (c_kind c)) (d_cols dc).
 
 (* ================================================================== schema / db state machine *)
 (* a table: column names (db names, id first) and rows aligned with them *)
@@ -1120,7 +1136,7 @@ Definition defsql_non_null (c : coldecl) : bool :=
   end.
 Definition sqlite_add_ok (empty : bool) (c : coldecl) : bool :=
   negb (eff_unique c || c_altid c) && (negb (c_notnone c || c_altid c) || defsql_non_null c || empty)
-  && sqlite_type_ok (c_kind c) && enum_escape_free Sqlite (c_kind c).
+  && sqlite_type_ok (c_kind c).
 
 Fixpoint index_of (n : str) (l : list str) : option nat :=
   match l with
@@ -1143,9 +1159,10 @@ Definition set_cols (dc : decl) (cs : list coldecl) : decl :=
 Definition map_table (db : dbstate) (n : str) (f : table -> table) : list table :=
   map (fun x => if str_eqb (t_name x) n then f x else x) (db_tables db).
 
-(* One sqlmeta.addColumn / delColumn(changeSchema=True): the class is changed
-   first, then the database.  Returns the new state and whether the database
-   statement failed. *)
+(* One sqlmeta.addColumn / delColumn(changeSchema=True).  addColumn alters the table
+   first and leaves the class alone when the engine refuses; delColumn changes the
+   class first, then recreates the table.  Returns the new state and whether a
+   database statement failed. *)
 Definition evo_step (s : evo_state) (op : evo_op) : evo_state * bool :=
   let dc := e_decl s in
   let tn := table_of dc in
@@ -1162,10 +1179,12 @@ Definition evo_step (s : evo_state) (op : evo_op) : evo_state * bool :=
                                       {| t_name := tn; t_cols := t_cols t ++ [dbname_of (d_style dc) c];
                                          t_rows := map (fun r => r ++ [znull]) (t_rows t) |});
                        db_indexes := db_indexes (e_db s) |} |}, false)
-      else ({| e_decl := dc'; e_db := e_db s |}, true)
+      else (s, true)
   | EDel n =>
       let dc' := set_cols dc (filter (fun c => negb (str_eqb (final_name c) n)) (d_cols dc)) in
       let orig := tn ++ s2l "_ORIGINAL" in
+      if negb (existsb (fun c => str_eqb (final_name c) n) (d_cols dc)) then (s, true)   (* ValueError: unknown column *)
+      else
       match find_table (db_tables (e_db s)) tn with
       | Some t =>
           (* recreateTableWithoutColumn: rename to <table>_ORIGINAL, create from the
@@ -1212,6 +1231,15 @@ Fixpoint evo_run (s : evo_state) (ops : list evo_op) : evo_state * bool :=
                let '(s'', e') := evo_run s' r in (s'', e || e')
   end.
 
-(* an op the engine accepts whatever the table holds *)
-Definition op_ok (op : evo_op) : bool :=
-  match op with EAdd c => sqlite_add_ok false c | EDel _ => true end.
+(* an op that goes through: an addColumn the engine accepts whatever the table holds, a
+   delColumn of a column the class has *)
+Definition op_ok (dc : decl) (op : evo_op) : bool :=
+  match op with
+  | EAdd c => sqlite_add_ok false c
+  | EDel n => existsb (fun c => str_eqb (final_name c) n) (d_cols dc)
+  end.
+Fixpoint ops_ok (s : evo_state) (ops : list evo_op) : bool :=
+  match ops with
+  | [] => true
+  | op :: r => op_ok (e_decl s) op && ops_ok (fst (evo_step s op)) r
+  end.
